@@ -30,7 +30,7 @@ func (r *rs) lengthDomain(name string) {
 		return
 	}
 	n := flow.Obj(info, b["_n"])
-	from, ok := g.Find(as)
+	from, ok := flow.PointOf(g, as)
 	if n == nil || !ok || flow.Assignments(info, fn.Decl.Body, n) != 1 {
 		c.Undecidedf("R3.length", name+"/length", as.Pos(), "the decoded length is not a single-assignment variable")
 		return
@@ -101,7 +101,7 @@ func (r *rs) lengthDomain(name string) {
 	if allocNode == nil {
 		return
 	}
-	ap, _ := g.Find(allocNode)
+	ap, _ := flow.PointOf(g, allocNode)
 	var valuePat *pat.Pattern
 	var ab pat.Binds
 	if name == "decodeBulkBytes" {
@@ -199,7 +199,7 @@ func (r *rs) r4() {
 				c.Undecidedf("R4.term", "decodeBulkBytes/crlf", mk.Pos(), "cannot find io.ReadFull(d.r, b)")
 			} else {
 				// every successful return after the body was read sits behind both terminator tests
-				rp, _ := g.Find(rf[0])
+				rp, _ := flow.PointOf(g, rf[0])
 				k := 0
 				for _, p := range g.Points(func(m ast.Node) bool {
 					ret, ok := m.(*ast.ReturnStmt)
@@ -297,7 +297,7 @@ func (r *rs) line(name string, returnsPrefix bool) {
 		return
 	}
 	nobj := flow.Obj(info, nb["_n"])
-	ap, _ := g.Find(as)
+	ap, _ := flow.PointOf(g, as)
 	isCR := func(e ast.Expr) bool { return pat.Expr("_b[_n]").Match(info, e, nb) != nil }
 	k := 0
 	for _, p := range g.Points(func(m ast.Node) bool {
@@ -315,7 +315,16 @@ func (r *rs) line(name string, returnsPrefix bool) {
 		c.Check("R4.term", name+"/cr", ret.Pos(), ok2, "a value may be returned only when the byte before the LF is CR: a line without CR LF is malformed and must yield an error", w2...)
 		if returnsPrefix {
 			rs, _ := ret.(*ast.ReturnStmt)
-			if rs != nil && len(rs.Results) == 2 && pat.Expr("_b[:_n]").Match(info, flow.Resolve(info, fn.Decl.Body, rs.Results[0]), nb) != nil {
+			var val ast.Expr
+			if rs != nil && len(rs.Results) == 2 {
+				val = flow.Resolve(info, fn.Decl.Body, rs.Results[0])
+				if o := flow.Obj(info, val); o != nil {
+					if d := flow.ReachingDef(g, o, p); d != nil {
+						val = d
+					}
+				}
+			}
+			if val != nil && pat.Expr("_b[:_n]").Match(info, val, nb) != nil {
 				c.Okf("R4.term", name+"/payload", ret.Pos(), "the text value is the line without its 2 terminator bytes (b[:n])")
 			} else {
 				c.Undecidedf("R4.term", name+"/payload", ret.Pos(), "returned value %s is not the recognised b[:n]", c.Src(ret))
@@ -349,7 +358,7 @@ func (r *rs) r5enc(name string) {
 	for _, call := range flow.FindCalls(fn.Decl.Body, func(call *ast.CallExpr) bool {
 		return core.CalleeFunc(info, call) == encodeInt.Obj && len(call.Args) == 1
 	}) {
-		p, ok := g.Find(call)
+		p, ok := flow.PointOf(g, call)
 		if !ok {
 			continue
 		}
